@@ -320,6 +320,40 @@ theorem generated_wiener (pi : ℚ) (n i : ℕ) (hpi : 0 < pi) :
     nlinarith
 
 open FDA.Generated in
+/-- `KarhunenLoeve.new` as written stores column 0 of `clusters_std` in `eigenvalues`, nothing added: for a
+named sequence (every column is that sequence) the stored eigenvalues are the sequence — whatever the
+`centers` and the number of clusters are -/
+theorem generated_eigenvalues_stored :
+    eigenvaluesColumnSrc = 0 ∧ eigenvaluesExtraTermSrc = false ∧
+    ∀ (ev : List Rat) (k : Nat), 0 < k →
+      storedEigenvalues (ev.map fun x => List.replicate k x) eigenvaluesColumnSrc = ev := by
+  refine ⟨rfl, rfl, ?_⟩
+  intro ev k hk
+  unfold storedEigenvalues col eigenvaluesColumnSrc
+  induction ev with
+  | nil => rfl
+  | cons x xs ih =>
+    simp only [List.map_cons, List.map_map] at ih ⊢
+    congr 1
+    · cases k with
+      | zero => omega
+      | succ k => simp [List.replicate]
+
+open FDA.Generated in
+/-- `BasisFunctionalData.to_grid` as written (`einsum("ij,j...->i...", coefficients, basis.values)`) contracts
+the second axis of the coefficients with the first axis of the basis values: it is the model's `klData`;
+the multivariate branch of `new` uses the same coefficient array for every component and does not
+rescale the gridded components -/
+theorem generated_kl_contraction (coef B : List (List Rat)) (m i j : Nat) (c : List Rat)
+    (hi : coef[i]? = some c) (hj : j < m) :
+    klCoefContractAxisSrc = 1 ∧ klBasisContractAxisSrc = 0 ∧ klSameCoefEveryComponentSrc = true ∧ klGridRescaledSrc = false ∧
+    ((klData coef B m)[i]?.bind (·[j]?)) = some (contractEntry klCoefContractAxisSrc klBasisContractAxisSrc coef B i j) := by
+  refine ⟨rfl, rfl, rfl, rfl, ?_⟩
+  rw [kl_structure coef B m i j c hi hj]
+  unfold contractEntry klCoefContractAxisSrc klBasisContractAxisSrc
+  simp [List.getD, hi]
+
+open FDA.Generated in
 /-- the cluster sizes of `_make_coef` as the source computes them are the model's `clusterSize` -/
 theorem generated_cluster_size (n k g : ℕ) : clusterSizeSrc n k g = clusterSize n k g := by
   unfold clusterSizeSrc clusterSize; rfl
